@@ -351,11 +351,21 @@ def check_store_writes(rep, fl):
         a = [norm(x) for x in b.call_args(emu[0][1])]
         okem = a[1] == key and a[2] == V("conflict") and a[3] == ("field", item, "expiration") and a[4] == V("expiration")
     rep.check(okem, "R05.2", fl, b, "em.try_update(key, conflict, old, new)", "the expiry index is moved from the stored deadline to the new one", "em.try_update arguments changed")
-    # rejected paths return the caller's value unchanged
+    # rejected paths return the caller's value unchanged, and each outcome is reported only for its own cause
+    causes = {
+        "NotExist": (A(("variant", le, "None")), "the key is absent from the shard"),
+        "Conflict": (AND(A(("variant", le, "Some")), NOT(conflict_ok_formula(item))), "the stored conflict hash differs"),
+        "Reject": (AND(A(("variant", le, "Some")), conflict_ok_formula(item), NOT(should)), "the UpdateValidator vetoed"),
+    }
     for var in ("NotExist", "Conflict", "Reject"):
         ag = agg_nodes(b, "store::UpdateResult", var)
-        ok = len(ag) == 1 and ag[0][3][3][0] == val
+        ok = len(ag) >= 1 and all(x[3][3][0] == val for x in ag)
         rep.check(ok, "R09.2", fl, b, var + "(val)", "%s hands the caller's value back" % var, "%s does not return the caller's value" % var)
+        for abi, asi, ast, ae in ag:
+            good, cx = all_states(b, at, (abi, asi), causes[var][0], hist=True)
+            rep.check(good, "R02.5", fl, b, var + " cause", "%s is reported only when %s" % (var, causes[var][1]),
+                      "%s is reported on a path where it is not the case that %s (%s): a resident entry is treated as %s, so an insert of a resident key is queued as a New item "
+                      "instead of replacing the value in place (and the policy, which already charges the key, then rejects it)" % (var, causes[var][1], show_state(cx)[:160] if cx else "", var), loc=ast["sp"])
     # ---- try_insert ------------------------------------------------------------------------
     b = facts.body(SM + "::try_insert")
     shard, le, key, item, lk, look = accessor_facts(b)
@@ -691,13 +701,39 @@ def check_tick(rep, fl):
         if calls_to(x, fl.processor + "::handle_cleanup_event"):
             loop = x
     rep.check(loop is not None, "R05.7", fl, sp, "tick arm", "the processor loop has an arm calling handle_cleanup_event", "the processor loop never calls handle_cleanup_event")
-    tick = [(x, c) for x in descendants(facts, sp) for c in calls_to(x, "crossbeam_channel::tick", "Timer::interval", "channel::tick")]
-    ok = len(tick) >= 1
-    if ok:
-        x, (bi, t) = tick[0]
-        a = norm(x.call_args(t)[0])
-        ok = a == norm(F(V("self"), "cleanup_duration"))
-    rep.check(ok, "R05.7", fl, sp, "ticker period", "the ticker is built from self.cleanup_duration", "the ticker period is not the configured cleanup_duration")
+    # the timer: a periodic one built from cleanup_duration, or a one-shot one (after(d) /
+    # at(now + d)) that is re-armed inside the loop
+    periodic = [(x, c) for x in descendants(facts, sp) for c in calls_to(x, "crossbeam_channel::tick", "Timer::interval", "channel::tick")]
+    oneshot = [(x, c) for x in descendants(facts, sp) for c in calls_to(x, "crossbeam_channel::after", "crossbeam_channel::at", "channel::after", "channel::at", "Timer::after", "Timer::at")]
+    cd = norm(F(V("self"), "cleanup_duration"))
+
+    def is_period(x, e, deadline, depth=0):
+        e = norm(e)
+        if depth > 4:
+            return False
+        if not deadline and e == cd:
+            return True
+        if e[0] == "var":
+            ds = var_def_exprs(x, e, False)
+            if not ds and x.is_closure:
+                par = parent_of(facts, x)
+                env = closure_env(par, x) if par is not None else None
+                if env and e in env:
+                    return is_period(par, env[e], deadline, depth + 1)
+            return bool(ds) and all(is_period(x, d, deadline, depth + 1) for d in ds)
+        if deadline and e[0] == "call" and e[1].endswith("::add") and "Instant" in e[1] and len(e[2]) == 2:
+            a, b_ = norm(e[2][0]), norm(e[2][1])
+            return (is_call(a, "Instant::now") and is_period(x, b_, False, depth + 1)) or (is_call(b_, "Instant::now") and is_period(x, a, False, depth + 1))
+        return False
+    ok = False
+    if periodic:
+        x, (bi, t) = periodic[0]
+        ok = is_period(x, x.call_args(t)[0], False)
+    elif oneshot:
+        x, (bi, t) = oneshot[0]
+        deadline = callee_matches(x.callee_of(t), "at") or x.callee_of(t).endswith("::at")
+        ok = is_period(x, x.call_args(t)[0], deadline) and x.in_loop(bi)
+    rep.check(ok, "R05.7", fl, sp, "ticker period", "the cleanup timer is built from self.cleanup_duration (periodic, or one-shot and re-armed in the loop)", "the cleanup timer's period is not the configured cleanup_duration")
     new = fl.code(fl.processor + "::new")
     f = None
     for bi, si, st, e in agg_nodes(new, "CacheProcessor"):
@@ -789,9 +825,9 @@ def check_removal_inventory(rep, fl):
     # callers of ShardedMap::try_remove / clear and of policy remove / clear
     expect = {
         SM + "::try_remove": {fl.cache + "::try_remove", fl.processor + "::handle_item", fl.cleanup},
-        SM + "::clear": {fl.cache + "::clear"},
+        SM + "::clear": {fl.processor + "::handle_clear_event"},
         fl.policy + "::remove": {fl.processor + "::handle_item", fl.cleanup},
-        fl.policy + "::clear": {fl.cache + "::clear"},
+        fl.policy + "::clear": {fl.processor + "::handle_clear_event"},
         "policy::SampledLFU::remove": {fl.policy + "::add", fl.policy + "::remove"},
         "policy::SampledLFU::clear": {fl.policy + "::clear"},
     }
